@@ -13,7 +13,7 @@ ROOTS = (T + "timezone::TimeZone::from_tz_data", T + "timezone::TimeZone::from_p
 def run(chk, tier):
     P = Prog("default")
     chk.configs.add("default")
-    for r in (r_absint, r_block_order, r_header_order, r_rule_boxes, r_validate, r_capacity, r_header_consts):
+    for r in (r_absint, r_block_order, r_header_order, r_rule_boxes, r_validate, r_validate_cover, r_capacity, r_header_consts):
         chk.guarded(r, P, tier)
     chk.assume("that every conforming file is accepted and decoded to exactly the written transitions/types/rule is not decided (value-level)")
     return {
@@ -111,6 +111,127 @@ def r_validate(chk, P, tier):
     chk.expect(set(sites) <= allowed, "construction sites", "TimeZone struct literals outside new/utc/fixed: %s" % sorted(set(sites) - allowed))
     cs = callees(P, T + "parser::parse")
     chk.expect(TZ + "::new" in cs, "parse ends in new", "parser::parse does not build its result with TimeZone::new")
+
+
+def r_validate_cover(chk, P, tier):
+    """The bounds justifications of both lookups rest on: validate() checked EVERY transition's type index. Recognised proof shape:
+    a counting loop c = 0; while c < transitions.len() { if transitions[c].local_time_type_index >= local_time_types.len() { return Err }; ..; c += 1 }
+    whose only other exits are Err returns, the check dominating the increment."""
+    from rules import counted_loops, _copies, _root, _def_of, _slice_origin
+    chk.rule("COVER.validate", "validate() range-checks the type index of every transition: counting loop from 0 by 1 to transitions.len(), the check `index >= local_time_types.len() => Err` "
+                               "dominates the increment, every other loop exit returns Err; and rejects an empty type list first", floor=9)
+    fn = T + "timezone::TimeZoneRef::<'a>::validate"
+    mir = P.fn(fn)["mir"]
+    cfg = P.cfg(fn)
+    copies = _copies(mir)
+    zr = [f["name"] for f in P.adts[T + "timezone::TimeZoneRef"]["variants"][0]["fields"]]
+    trf = [f["name"] for f in P.adts[T + "timezone::Transition"]["variants"][0]["fields"]]
+    f_tr, f_ltt, f_idx = zr.index("transitions"), zr.index("local_time_types"), trf.index("local_time_type_index")
+    loops = [l for l in counted_loops(P, fn) if l["slice"] == (1, (f_tr,))]
+    chk.expect(len(loops) == 1 and loops[0]["ok"], "counting loop over transitions", "no loop of the shape `c = 0; while c < self.transitions.len() { ..; c += 1 }` found in validate() "
+               "(a different traversal needs a fresh review of the bounds justifications in both lookups)", loc=P.loc(fn))
+    if len(loops) != 1:
+        return
+    L = loops[0]
+
+    def err_block(b):
+        return any(st["k"] == "assign" and st["pl"]["l"] == 0 and not st["pl"]["p"] and st["rv"]["k"] == "agg" and st["rv"].get("variant") == "Err" for st in mir["blocks"][b]["s"])
+    chk.expect(all(err_block(y) for x, y in L["other_exits"]), "other loop exits return Err", "the transition loop of validate() can be left other than through its guard or an Err return", loc=P.loc(fn))
+
+    def len_of_types(l):
+        d = _def_of(mir, _root(copies, l))
+        if d and d[1].get("k") == "call" and (d[1]["callee"].get("resolved") or "").endswith("<impl [T]>::len"):
+            a = d[1]["args"][0]
+            return a["k"] in ("copy", "move") and _slice_origin(mir, copies, a["pl"]) == (1, (f_ltt,))
+        return False
+
+    def is_elem_index(l):
+        d = _def_of(mir, _root(copies, l))
+        if not d or d[1].get("k") != "assign" or d[1]["rv"]["k"] != "use" or d[1]["rv"]["x"]["k"] not in ("copy", "move"):
+            return False
+        pl = d[1]["rv"]["x"]["pl"]
+        proj = [e for e in pl["p"] if e != "*"]
+        if len(proj) != 2 or proj[0][0] != "i" or proj[1][0] != "f" or proj[1][1] != f_idx:
+            return False
+        if _root(copies, proj[0][1]) != L["counter"]:
+            return False
+        return _slice_origin(mir, copies, {"l": pl["l"], "p": []}) == (1, (f_tr,))
+    found = None
+    for b in sorted(L["body"]):
+        t = mir["blocks"][b]["t"]
+        if t["k"] != "switch" or t["discr"]["k"] not in ("copy", "move"):
+            continue
+        d = _def_of(mir, t["discr"]["pl"]["l"])
+        if not d or d[1].get("k") != "assign" or d[1]["rv"]["k"] != "bin":
+            continue
+        op, l_, r_ = d[1]["rv"]["op"], d[1]["rv"]["l"], d[1]["rv"]["r"]
+        if l_["k"] not in ("copy", "move") or r_["k"] not in ("copy", "move"):
+            continue
+        a, b_ = l_["pl"]["l"], r_["pl"]["l"]
+        zero = [tg for v, tg in t["targets"] if v == 0]
+        false_t = zero[0] if zero else None
+        true_t = t["otherwise"]
+        # which successor is taken exactly when  elem >= len
+        if op == "Ge" and is_elem_index(a) and len_of_types(b_):
+            bad_t = true_t
+        elif op == "Lt" and is_elem_index(a) and len_of_types(b_):
+            bad_t = false_t
+        elif op == "Le" and is_elem_index(b_) and len_of_types(a):
+            bad_t = true_t
+        elif op == "Gt" and is_elem_index(b_) and len_of_types(a):
+            bad_t = false_t
+        else:
+            continue
+        if bad_t is not None and bad_t not in L["body"] and err_block(bad_t) and cfg.dominates(b, L["incr"]):
+            found = b
+    chk.expect(found is not None, "index check dominates the increment", "validate() has no check `transitions[c].local_time_type_index >= local_time_types.len() => Err` on the loop counter that "
+               "dominates `c += 1` (some transition's type index may stay unchecked; the lookups index local_time_types with it)", loc=P.loc(fn))
+    # non-empty type list: a return Err guarded by len(local_time_types) == 0 that dominates the loop
+    ok = False
+    for b, blk in enumerate(mir["blocks"]):
+        t = blk["t"]
+        if blk.get("cleanup") or t["k"] != "switch" or t["discr"]["k"] not in ("copy", "move"):
+            continue
+        d = _def_of(mir, t["discr"]["pl"]["l"])
+        if d and d[1].get("k") == "assign" and d[1]["rv"]["k"] == "bin" and d[1]["rv"]["op"] == "Eq":
+            l_, r_ = d[1]["rv"]["l"], d[1]["rv"]["r"]
+            if l_["k"] in ("copy", "move") and len_of_types(l_["pl"]["l"]) and r_["k"] == "const" and r_.get("v") == 0:
+                if err_block(t["otherwise"]) and cfg.dominates(b, L["head"]):
+                    ok = True
+    chk.expect(ok, "empty type list rejected first", "validate() does not reject an empty local_time_types list before the transition loop (`local_time_types[0]` is read by the lookups)", loc=P.loc(fn))
+    # the lookups index local_time_types only with 0 or a transition's local_time_type_index (the validated quantities)
+    n = 0
+    for lk in ("find_local_time_type", "find_local_time_type_from_local"):
+        f2 = T + "timezone::TimeZoneRef::<'a>::" + lk
+        m2 = P.fn(f2)["mir"]
+        cp2 = _copies(m2)
+        for blk in m2["blocks"]:
+            if blk.get("cleanup"):
+                continue
+            for st in blk["s"]:
+                pls = []
+                from rules import _places_of
+                _places_of(st, pls)
+                for pl in pls:
+                    proj = [e for e in pl["p"] if e != "*"]
+                    for k, e in enumerate(proj):
+                        if e[0] == "i" and _slice_origin(m2, cp2, {"l": pl["l"], "p": []}) == (1, (f_ltt,)):
+                            n += 1
+                            root = _root(cp2, e[1])
+                            defs = [st2 for blk2 in m2["blocks"] if not blk2.get("cleanup") for st2 in blk2["s"]
+                                    if st2["k"] == "assign" and not st2["pl"]["p"] and st2["pl"]["l"] == root]
+                            src_ok = bool(defs)
+                            for st2 in defs:
+                                good = False
+                                if st2["rv"]["k"] == "use":
+                                    x = st2["rv"]["x"]
+                                    if x["k"] == "const" and x.get("v") == 0:
+                                        good = True
+                                    elif x["k"] in ("copy", "move"):
+                                        pj = [q for q in x["pl"]["p"] if q != "*"]
+                                        good = bool(pj) and pj[-1][0] == "f" and pj[-1][1] == f_idx
+                                src_ok = src_ok and good
+                            chk.expect(src_ok, "%s index #%d" % (lk, n), "%s indexes local_time_types with something other than 0 or a transition's local_time_type_index" % lk, loc=P.loc(f2, st.get("ln")))
 
 
 def r_capacity(chk, P, tier):
